@@ -44,29 +44,35 @@ pub fn tokenize<'a, 'b, 'c>(
             usize,
         ),
          (byte_pos, c)| {
-            let (token_kind, next_state) = get_state(&c, delimiter_start, delimiter_end, state);
+            let (token_kind, next_state, back) =
+                get_state(&c, delimiter_start, delimiter_end, state);
 
             if let Some(token_kind) = token_kind {
-                if (byte_pos - byte_start_pos) > 0 {
+                // `back` characters before `c` already belong to the next token.
+                let back_bytes: usize =
+                    delimiter_start.chars().take(back).map(char::len_utf8).sum();
+                let (end_pos, byte_end_pos) = (current - back, byte_pos - back_bytes);
+
+                if (byte_end_pos - byte_start_pos) > 0 {
                     tokens.push(Token {
-                        value: &source[byte_start_pos..byte_pos],
+                        value: &source[byte_start_pos..byte_end_pos],
                         kind: token_kind,
                         start: start_pos,
                         byte_start: byte_start_pos,
-                        end: current,
-                        byte_end: byte_pos,
+                        end: end_pos,
+                        byte_end: byte_end_pos,
                     });
                 }
 
-                start_pos = current;
-                byte_start_pos = byte_pos;
+                start_pos = end_pos;
+                byte_start_pos = byte_end_pos;
             };
 
             (tokens, next_state, byte_start_pos, start_pos, current + 1)
         },
     );
 
-    let (token_kind, _) = get_state(&' ', delimiter_start, delimiter_end, state);
+    let (token_kind, _, _) = get_state(&' ', delimiter_start, delimiter_end, state);
 
     let last_byte_pos = source.char_indices().last();
     let additional_token = match last_byte_pos {
@@ -132,19 +138,41 @@ fn check_delimiter_start<'a, 'b>(c: &char, delimiter_start: &'a str) -> State<'a
     }
 }
 
+/// Length of the longest prefix of `delimiter` that ends at `c`
+/// after `matched` characters of `delimiter` were read and `c` did not continue them.
+fn fallback_len(delimiter: &str, matched: usize, c: char) -> usize {
+    let delimiter_chars: Vec<char> = delimiter.chars().collect();
+    let mut read = delimiter_chars[..matched].to_vec();
+    read.push(c);
+
+    (1..=matched)
+        .rev()
+        .find(|n| delimiter_chars[..*n] == read[read.len() - n..])
+        .unwrap_or(0)
+}
+
+fn skip_chars(delimiter: &str, n: usize) -> Chars<'_> {
+    let mut chars = delimiter.chars();
+    for _ in 0..n {
+        chars.next();
+    }
+    chars
+}
+
 fn get_state<'a, 'b>(
     c: &char,
     delimiter_start: &'a str,
     delimiter_end: &'b str,
     state: State<'a, 'b>,
-) -> (Option<TokenKind<'a, 'b>>, State<'a, 'b>) {
+) -> (Option<TokenKind<'a, 'b>>, State<'a, 'b>, usize) {
     match state {
         State::Text => match check_delimiter_start(c, delimiter_start) {
             State::DelimiterStart(delimiter_start_chars) => (
                 Some(TokenKind::Text),
                 State::DelimiterStart(delimiter_start_chars),
+                0,
             ),
-            _ => (None, State::Text),
+            _ => (None, State::Text, 0),
         },
         State::DelimiterStart(mut current_chars) => {
             let current_char = current_chars.next();
@@ -152,20 +180,31 @@ fn get_state<'a, 'b>(
             match current_char {
                 Some(current_char) => {
                     if *c == current_char {
-                        (None, State::DelimiterStart(current_chars))
+                        (None, State::DelimiterStart(current_chars), 0)
                     } else {
-                        (None, State::Text)
+                        // The delimiter may start again inside the characters read so far.
+                        let matched = delimiter_start.chars().count()
+                            - current_chars.as_str().chars().count()
+                            - 1;
+                        match fallback_len(delimiter_start, matched, *c) {
+                            0 => (None, State::Text, 0),
+                            n => (
+                                Some(TokenKind::Text),
+                                State::DelimiterStart(skip_chars(delimiter_start, n)),
+                                n - 1,
+                            ),
+                        }
                     }
                 }
-                None => (None, State::InDelimiter),
+                None => (None, State::InDelimiter, 0),
             }
         }
         State::InDelimiter => {
             let mut delimiter_end_chars = delimiter_end.chars();
             if *c == delimiter_end_chars.next().unwrap() {
-                (None, State::DelimiterEnd(delimiter_end_chars))
+                (None, State::DelimiterEnd(delimiter_end_chars), 0)
             } else {
-                (None, state)
+                (None, state, 0)
             }
         }
         State::DelimiterEnd(mut current_chars) => {
@@ -174,9 +213,15 @@ fn get_state<'a, 'b>(
             match current_char {
                 Some(current_char) => {
                     if *c == current_char {
-                        (None, State::DelimiterEnd(current_chars))
+                        (None, State::DelimiterEnd(current_chars), 0)
                     } else {
-                        (None, State::InDelimiter)
+                        let matched = delimiter_end.chars().count()
+                            - current_chars.as_str().chars().count()
+                            - 1;
+                        match fallback_len(delimiter_end, matched, *c) {
+                            0 => (None, State::InDelimiter, 0),
+                            n => (None, State::DelimiterEnd(skip_chars(delimiter_end, n)), 0),
+                        }
                     }
                 }
                 None => (
@@ -185,6 +230,7 @@ fn get_state<'a, 'b>(
                         delimiter_end,
                     })),
                     check_delimiter_start(c, delimiter_start),
+                    0,
                 ),
             }
         }
